@@ -147,7 +147,7 @@ func TestVerifC09Sched(t *testing.T) {
 	r := NewVRand(VSeed() + 41)
 	hist := 3000
 	if VThorough() {
-		hist = 30000
+		hist = 100000
 	}
 	for hi := 0; hi < hist; hi++ {
 		n := 2 + r.Intn(3)
@@ -472,7 +472,7 @@ func TestVerifC09Pipe(t *testing.T) {
 	r := NewVRand(VSeed() + 53)
 	hist := 2000
 	if VThorough() {
-		hist = 20000
+		hist = 70000
 	}
 	// idBitmap.Allocate against the model's allocate
 	for i := 0; i < 40; i++ {
@@ -709,7 +709,6 @@ func c09PipeScenario(r *VRand, st *VStream, stat *VStats) {
 					continue
 				}
 				c := wt.c
-				st.Emit(fmt.Sprintf("P cancel %d", i), fmt.Sprintf("pc=leaving:%d.%d.%d.0.ctx", c, wt.id, wt.slot))
 				stat.Inc("pipe.cancel")
 				wt.state = "cancelled"
 				alreadyDead := w.dead[c]
@@ -719,6 +718,16 @@ func c09PipeScenario(r *VRand, st *VStream, stat *VStats) {
 					k = w.pendingOn(c)
 				}
 				wt.cancel()
+				// a RoundTrip whose context ended closes its connection (closeWithErr closes pc.closed
+				// before it walks the pending slots)
+				closed := "0"
+				select {
+				case <-w.pcs[c].closed:
+					closed = "1"
+				case <-time.After(c09PipeWait):
+					c09PipeLost.Add(1)
+				}
+				st.Emit(fmt.Sprintf("P cancel %d", i), fmt.Sprintf("pc=leaving:%d.%d.%d.0.ctx closed=%s", c, wt.id, wt.slot, closed))
 				w.runCloser(c, k)
 				// the closer is the cancelled waiter itself: it now returns
 				var res c09PipeRes
